@@ -870,8 +870,9 @@ func BuildSources(ctx context.Context, qc query.LogicalPlanCreator, sources infl
 	case *influxql.SubQuery:
 		builder := NewLogicalPlanBuilderImpl(schema)
 		subQueryBuilder := SubQueryBuilder{
-			qc:   qc,
-			stmt: source.Statement,
+			qc:         qc,
+			stmt:       source.Statement,
+			outerBinOp: outerBinOp,
 		}
 		subQueryPlan, err := subQueryBuilder.Build(ctx, schema.Options().(*query.ProcessorOptions))
 		if err != nil {
